@@ -51,7 +51,10 @@ EXPLANATION = ("SPECFAIL messages start with the most specific failure kind pres
 
 
 def plan(tier, seed, searching):
-    return [dict(hargs=["--seed", str(seed), "--tier", tier, "--scale", "8" if searching else "1"])]
+    sc = "8" if searching else "1"
+    return [dict(hargs=["--seed", str(seed), "--tier", tier, "--scale", sc], label="scenes"),
+            # op-level correspondence: the tree primitives and the improver's rewriting steps, one call at a time
+            dict(hargs=["--mode", "ops", "--seed", str(seed), "--tier", tier, "--scale", sc], label="ops")]
 
 
 def only_args(hargs, k):
